@@ -60,7 +60,7 @@ def setup(symbolic):
     import spsdk.crypto.hash as HASHM
     if symbolic:
         cls = keystubs.classes()
-        CB.convert_to_ecc_key = lambda key: key if isinstance(key, cls["StubEcc"]) else cls["StubEcc"].parse(key)
+        CB.convert_to_ecc_key = lambda key: key if isinstance(key, cls["StubEcc"]) else cls["StubEcc"].recreate_from_data(key)
         K = SymK()
     else:
         K = RealK()
